@@ -142,8 +142,24 @@ def run_harness(cmd, lines, timeout=600):
         if p.returncode == 3 and got and got[-1].get("hang"):
             continue
         if p.returncode != 0:
-            raise CheckError("harness %s exited %d after %d outputs\n%s" % (
-                cmd, p.returncode, len(outs), p.stderr.decode(errors="replace")[-3000:]))
+            # the process died (a fatal Go runtime error cannot be recovered): the case it was
+            # working on is the culprit; record that and go on with the rest
+            err = p.stderr.decode(errors="replace")
+            first = err.strip().splitlines()[0] if err.strip() else ""
+            crashes = getattr(run_harness, "crashes", 0) + 1
+            run_harness.crashes = crashes
+            if pos >= len(lines):
+                raise CheckError("harness %s exited %d after %d outputs\n%s" % (cmd, p.returncode, len(outs), err[-3000:]))
+            outs.append({"crash": True, "results": [{"panic": "process died: " + first[:300], "out": []}],
+                         "fatal": first[:300]})
+            pos += 1
+            if crashes >= 12:
+                # enough evidence; do not spend minutes restarting the process for every remaining case
+                while pos < len(lines):
+                    outs.append({"skipped": True, "results": []})
+                    pos += 1
+                break
+            continue
         break
     return outs
 
